@@ -114,7 +114,7 @@ var allReads = []string{"get", "has", "getwithindex", "getbyindex", "iterate", "
 	"versionedproof", "hash", "workinghash", "imhash", "getversioned", "getimmutable", "export"}
 
 var baseWeights = map[string]int{"set": 30, "remove": 12, "save": 18, "rollback": 3, "reopen": 7, "prune": 7, "prune_refuse": 1,
-	"lvfo": 3, "dvf": 2, "setnil": 1, "read": 0, "hop": 0, "iter": 0, "pin": 0, "unpin": 0, "lvfo_invalid": 0, "replay": 0}
+	"lvfo": 3, "dvf": 2, "setnil": 1, "read": 0, "hop": 0, "iter": 0, "pin": 0, "unpin": 0, "lvfo_invalid": 0, "replay": 0, "hold": 0}
 
 func weights(over map[string]int) map[string]int {
 	m := map[string]int{}
@@ -187,6 +187,7 @@ func GenOp(t *rapid.T, w *World, p *Profile) Op {
 	}
 	add("pin", w.Latest > 0 && npins < 3)
 	add("unpin", len(w.Pins) > 0)
+	add("hold", w.Latest > 0 && len(w.Held) < 3)
 	// the importer allocates a nonce table of size version+1: keep imports to realistic version numbers
 	add("hop", w.Latest > 0 && !w.Dirty && w.Latest < 1<<20)
 	total := 0
@@ -277,6 +278,11 @@ func GenOp(t *rapid.T, w *World, p *Profile) Op {
 			return Op{Kind: "pin", N: vs[0]}
 		}
 		return Op{Kind: "pin", N: rapid.SampledFrom(w.Retained()).Draw(t, "pinv")}
+	case "hold":
+		if rapid.Bool().Draw(t, "holdLatest") {
+			return Op{Kind: "hold", N: w.Latest}
+		}
+		return Op{Kind: "hold", N: rapid.SampledFrom(w.Retained()).Draw(t, "holdv")}
 	case "unpin":
 		vs := make([]int64, 0, len(w.Pins))
 		for v := range w.Pins {
